@@ -345,4 +345,5 @@ for _e in (("locatesim", ["C09"], "region cache over a simulated, reordering and
 
 HOOK_COMMITS = ["a62b6a3 verif hook: internal/simhook yield points in the local latch scheduler",
                 "d5b2db1 verif hook: yield points in pdOracle.setLastTS and getCurrentTSForValidation",
-                "fc43e7d verif hook: simulated batch stream seam and yield points in the batch client"]
+                "fc43e7d verif hook: simulated batch stream seam and yield points in the batch client",
+                "2817407 verif hook: yield points at the start of a transaction's background goroutines"]
